@@ -1,6 +1,7 @@
 package main
 
 import (
+	"os"
 	"fmt"
 	"go/token"
 	"go/types"
@@ -1108,7 +1109,10 @@ func runC01Server(c *Ctx) {
 					}
 					nret++
 					L := z.lenOf(r.Results[0], 0)
-					ok1, _ := z.prove(in, []lin{leq(L, z.term(prm), 0)})
+					ok1, why1 := z.prove(in, []lin{leq(L, z.term(prm), 0)})
+					if os.Getenv("ZDEBUG") == "clamp" {
+						fmt.Fprintf(os.Stderr, "clamp: param %s at %s: len<=param %v (%s)\n", prm.Name(), p.Pos(in.Pos()), ok1, why1)
+					}
 					var lenT *lin
 					eachInstr(g, func(x ssa.Instruction) {
 						if u, isU := x.(*ssa.UnOp); isU && u.Op == token.MUL {
